@@ -477,7 +477,10 @@ class Ctx:
                 if len(self.vm_sample) >= 300 or took >= 100:
                     break
                 if coq_printable(c) and coq_printable(r):
-                    self.vm_sample.append((coq_val(c), coq_val(r)))
+                    pc = coq_val(c)
+                    if len(pc) > 20000:
+                        continue          # very large cases are left to the extracted model: the VM inside Coq is too slow for them
+                    self.vm_sample.append((pc, coq_val(r)))
                     took += 1
         return res
 
